@@ -381,7 +381,23 @@ func (c07) Run(tp *Tape, opt RunOpt) *RunOut {
 		handlerProbe = true
 		g.hasTry = true
 		g.kinds = append(g.kinds, "handler-probe")
-		src = "(try " + g.endless(1, false) + " (catch e (do (trace! :probe-handler) " + strconv.Itoa(tp.Draw(LaneWork, 50)) + ")))"
+		{
+			// the body of a try is a sequence of forms: the one that never ends is the only one, the first, the
+			// middle or the last of them (all of them run under the body's share of the deadline)
+			body := g.endless(1, false)
+			switch tp.Draw(LaneWork, 5) {
+			case 1:
+				g.kinds = append(g.kinds, "handler-probe-multi-form-body")
+				body = body + " :done"
+			case 2:
+				g.kinds = append(g.kinds, "handler-probe-multi-form-body")
+				body = "(trace! :lead) " + body + " (trace! :not-reached) 7"
+			case 3:
+				g.kinds = append(g.kinds, "handler-probe-multi-form-body")
+				body = "(trace! :lead) 1 " + body
+			}
+			src = "(try " + body + " (catch e (do (trace! :probe-handler) " + strconv.Itoa(tp.Draw(LaneWork, 50)) + ")))"
+		}
 		if tp.Chance(LaneWork, 1, 3) {
 			// ... reached in tail position of the same evaluation after a prefix that uses up part of the deadline
 			// (the marker 777777777 is replaced once the deadline is known)
